@@ -7,6 +7,7 @@ ASSUME = [
     "after every step of every explored history one report is issued per token issued earlier in that history, plus the empty token: all pairs (i, j>=i)",
     "expected change list = diff of the audited member->etag maps at i and j (created/changed with current etag, removed as 404, nothing else, each once)",
     "foreign tokens (zeros, other collection's token, a blob id, the HEAD commit id, non-hex, non-ASCII, URL) must get an error status; any status >= 400 is accepted",
+    "every report is sent twice in a row (the answer must not depend on having been asked before); one configuration models a client holding on to a single token (only reports for the oldest token between writes)",
     "requests without DAV:limit",
 ]
 
@@ -20,6 +21,7 @@ def configs(tier):
         Config(front="wsgi", backend="tree", prefix="/", features=feats, names=names, bodies=bodies, props=props, oracles=set()),
         Config(front="aio", backend="bare", prefix="/dav/", features=feats, names=names, bodies=bodies, props=props, oracles=set()),
     ]
+    out.append(Config(front="wsgi", backend="tree", prefix="/", features={"sync", "sync-held", "restart"}, names=names, bodies=bodies, props=props, oracles=set(), label="tree/wsgi+held-token"))
     if tier == "thorough":
         out += [
             Config(front="aio", backend="tree", prefix="/dav/", features=feats | {"post"}, names=names, bodies=bodies, props=props, oracles=set()),
